@@ -12,6 +12,9 @@ Section Safe.
   Variable valid0 : nat -> bool.
   Hypothesis Hv0 : valid0 O = false.
   Variable own0 : omap.
+  Variable NR : nat.      (* threads 0..NR-1 are client threads; NR..N-1 are idle place holders (cache slots of
+                             CachedFreeList) whose held list is not client ownership *)
+  Hypothesis HNR : (NR <= N)%nat.
 
   Notation InvS := (InvS N valid0).
 
@@ -21,7 +24,7 @@ Section Safe.
       held lists; a thread is inside an operation iff its phase is not [Idle] *)
   Definition InvT (a : Aux) (tr : list (nat * ev)) : Prop :=
     mon_run own0 tr = Some (own a) /\
-    (forall n t, own a n = Some t <-> In n (hl a t)) /\
+    (forall n t, own a n = Some t <-> (t < NR)%nat /\ In n (hl a t)) /\
     (forall t, opens t tr = if is_idle (ph a t) then 0 else 1).
 
   Definition Inv (g : G) (a : Aux) (tr : list (nat * ev)) : Prop := InvS g a /\ InvT a tr.
@@ -33,10 +36,9 @@ Section Safe.
     (forall t', is_idle (ph a' t') = is_idle (ph a t')) ->
     InvT a' (tr ++ Conc.tag t [EvAcc k o ok]).
   Proof.
-    intros (T1 & T2 & T3) Hh Ho Hi. repeat split.
+    intros (T1 & T2 & T3) Hh Ho Hi. split; [|split].
     - rewrite mon_run_app, T1, Ho. reflexivity.
-    - rewrite Ho, Hh. apply T2.
-    - rewrite Ho, Hh. apply T2.
+    - intros n t'. rewrite Ho, Hh. apply T2.
     - intros t'. rewrite opens_app, Hi, T3. cbn. destruct (Nat.eqb t t'); lia.
   Qed.
 
@@ -257,7 +259,7 @@ Section Safe.
   (** ** rules for the client events *)
   Lemma InvT_emit a a' tr t e :
     InvT a tr -> mon_ev (own a) t e = Some (own a') ->
-    (forall n t', own a' n = Some t' <-> In n (hl a' t')) ->
+    (forall n t', own a' n = Some t' <-> (t' < NR)%nat /\ In n (hl a' t')) ->
     (forall t', (if is_idle (ph a t') then 0 else 1) + (if Nat.eqb t t' then ev_open e else 0)
                 = if is_idle (ph a' t') then 0 else 1) ->
     InvT a' (tr ++ Conc.tag t [e]).
@@ -313,13 +315,14 @@ Section Safe.
   Qed.
 
   Lemma rule_emit_ret_get t H n R (k : prog R) Q :
+    (t < NR)%nat ->
     safe t k ((H ++ [n])%list, Idle) Q -> safe t (Emit [EvCli "ret_get" (zn n)] k) (H, PRet n) Q.
   Proof.
-    intros Ks. cbn [Conc.safe]. intros g a tr [HS HT] Hv. unfold view in Hv. injection Hv as Hh Hp.
+    intros HtR Ks. cbn [Conc.safe]. intros g a tr [HS HT] Hv. unfold view in Hv. injection Hv as Hh Hp.
     pose proof (S_ph HS t) as Hx. rewrite Hp in Hx. cbn in Hx. destruct Hx as [Hst Hnin].
     destruct HT as (T1 & T2 & T3).
     assert (Hown : own a n = None).
-    { destruct (own a n) as [t'|] eqn:E; [|reflexivity]. apply T2 in E. pose proof (S_held HS t' n E) as E'.
+    { destruct (own a n) as [t'|] eqn:E; [|reflexivity]. apply T2 in E. destruct E as [_ E]. pose proof (S_held HS t' n E) as E'.
       rewrite Hst in E'. injection E' as <-. contradiction. }
     exists (step_aux a n (Held t) (lst a) t Idle (hl a t ++ [n])%list (upd (own a) n (Some t))). split; [split|split].
     - apply (step_ret_get N valid0); auto.
@@ -327,9 +330,9 @@ Section Safe.
       + unfold zn. cbn. assert ((Z.of_nat n <? 0)%Z = false) as -> by (apply Z.ltb_ge; lia). rewrite Nat2Z.id, Hown. reflexivity.
       + intros m t'. cbn [own hl step_aux]. unfold upd.
         destruct (Nat.eqb_spec m n) as [->|Hm]; destruct (Nat.eqb_spec t' t) as [->|Ht'].
-        * split; [intros _; apply in_or_app; right; left; reflexivity|reflexivity].
-        * split; [congruence|]. intros Hin. apply (S_held HS) in Hin. congruence.
-        * rewrite T2, in_app_iff. cbn. split; [tauto|]. intros [E|[E|[]]]; [exact E|congruence].
+        * split; [intros _; split; [exact HtR|apply in_or_app; right; left; reflexivity]|reflexivity].
+        * split; [congruence|]. intros [_ Hin]. apply (S_held HS) in Hin. congruence.
+        * rewrite T2, in_app_iff. cbn. split; [tauto|]. intros [Hl [E|[E|[]]]]; [tauto|congruence].
         * apply T2.
       + intros t'. cbn [ph step_aux]. unfold upd. destruct (Nat.eqb_spec t' t) as [->|Hne].
         * rewrite Nat.eqb_refl, Hp. reflexivity.
@@ -339,25 +342,25 @@ Section Safe.
   Qed.
 
   Lemma rule_emit_inv_put t H i n R (k : prog R) Q :
-    (t < N)%nat -> nth_error H i = Some n ->
+    (t < N)%nat -> (t < NR)%nat -> nth_error H i = Some n ->
     safe t k (remove_nth i H, PPut n) Q -> safe t (Emit [EvCli "inv_put" (zn n)] k) (H, Idle) Q.
   Proof.
-    intros Ht Hi Ks. cbn [Conc.safe]. intros g a tr [HS HT] Hv. unfold view in Hv. injection Hv as Hh Hp.
+    intros Ht HtR Hi Ks. cbn [Conc.safe]. intros g a tr [HS HT] Hv. unfold view in Hv. injection Hv as Hh Hp.
     rewrite <- Hh in Hi.
     assert (Hin : In n (hl a t)) by (eapply nth_error_In; eauto).
     pose proof (S_held HS t n Hin) as Hst.
     destruct (remove_nth_spec (hl a t) i n Hi (S_hnd HS t)) as (R1 & R2 & R3).
     destruct HT as (T1 & T2 & T3).
-    assert (Hown : own a n = Some t) by (apply T2; exact Hin).
+    assert (Hown : own a n = Some t) by (apply T2; split; [exact HtR|exact Hin]).
     exists (step_aux a n (Held t) (lst a) t (PPut n) (remove_nth i (hl a t)) (upd (own a) n None)). split; [split|split].
     - apply (step_inv_put N valid0); auto.
     - eapply InvT_emit; [split; [exact T1|split; [exact T2|exact T3]]| | |].
       + unfold zn. cbn. rewrite Nat2Z.id, Hown, Nat.eqb_refl. reflexivity.
       + intros m t'. cbn [own hl step_aux]. unfold upd.
         destruct (Nat.eqb_spec m n) as [->|Hm]; destruct (Nat.eqb_spec t' t) as [->|Ht'].
-        * split; [discriminate|contradiction].
-        * split; [discriminate|]. intros Hin'. apply (S_held HS) in Hin'. congruence.
-        * rewrite T2. symmetry. apply R3. exact Hm.
+        * split; [discriminate|]. intros [_ Hc]. contradiction.
+        * split; [discriminate|]. intros [_ Hin']. apply (S_held HS) in Hin'. congruence.
+        * rewrite T2. rewrite (R3 m Hm). tauto.
         * apply T2.
       + intros t'. cbn [ph step_aux]. unfold upd. destruct (Nat.eqb_spec t' t) as [->|Hne].
         * rewrite Nat.eqb_refl, Hp. reflexivity.
@@ -428,18 +431,18 @@ Section Safe.
   Lemma safe_get fuel t H : safe t (get fuel) (H, Busy) (Qget H).
   Proof. unfold get. apply rule_ld_head. intros v. apply safe_get_loop. Qed.
 
-  Lemma safe_run_ops fuel t : (t < N)%nat -> forall os H, safe t (run_ops fuel os H) (H, Idle) (@Conc.QTrue _).
+  Lemma safe_run_ops fuel t : (t < NR)%nat -> forall os H, safe t (run_ops fuel os H) (H, Idle) (@Conc.QTrue _).
   Proof.
-    intros Ht. induction os as [|o r IH]; intros H; cbn [run_ops]; [exact I|].
+    intros HtR. assert (Ht : (t < N)%nat) by lia. induction os as [|o r IH]; intros H; cbn [run_ops]; [exact I|].
     destruct o as [|i].
     - apply rule_emit_inv_get; [exact Ht|]. apply Conc.safe_bind.
       eapply Conc.safe_weaken; [|apply safe_get].
       intros res l Hl. destruct res as [[|n]|]; cbn in Hl.
       + subst l. apply rule_emit_ret_null; [exact Ht|]. apply IH.
-      + subst l. apply rule_emit_ret_get. apply IH.
+      + subst l. apply rule_emit_ret_get; [exact HtR|]. apply IH.
       + apply rule_emit_oof.
     - destruct (nth_error H i) as [n|] eqn:Hi.
-      + eapply rule_emit_inv_put; [exact Ht|exact Hi|]. apply Conc.safe_bind.
+      + eapply rule_emit_inv_put; [exact Ht|exact HtR|exact Hi|]. apply Conc.safe_bind.
         eapply Conc.safe_weaken; [|apply safe_put].
         intros ok l Hl. destruct ok.
         * rewrite (Hl eq_refl). apply rule_emit_ret_put; [exact Ht|]. apply IH.
@@ -447,6 +450,6 @@ Section Safe.
       + apply rule_emit_skip; [exact Ht|]. apply IH.
   Qed.
 
-  Lemma safe_thread fuel t os H : (t < N)%nat -> safe t (thread_prog fuel os H) (H, Idle) (@Conc.QTrue _).
+  Lemma safe_thread fuel t os H : (t < NR)%nat -> safe t (thread_prog fuel os H) (H, Idle) (@Conc.QTrue _).
   Proof. intros Ht. unfold thread_prog. apply rule_begin. intros _. apply safe_run_ops. exact Ht. Qed.
 End Safe.
